@@ -113,6 +113,50 @@ pub fn suite<S: HasR>(mon: &mut Monitor, api: &QuatApi<S>) {
         mon.end(c);
     }
 
+    // +, -, scalar * and / are single IEEE operations per component, "like the 4-vector operations": exact.
+    if let Some(mut c) = mon.begin(ty, "component-wise ops equal the primitive per component (exact)") {
+        let mut rng = Rng::new(mon.op_seed(ty, "exact"));
+        fn prim<S: Fl>(op: u8, a: S, b: S) -> S {
+            if S::NAME == "f32" {
+                let (x, y) = (f32::from_bits(a.bits() as u32), f32::from_bits(b.bits() as u32));
+                let r = match op { 0 => x + y, 1 => x - y, 2 => x * y, _ => x / y };
+                S::from_bits64(r.to_bits() as u64)
+            } else {
+                let (x, y) = (f64::from_bits(a.bits()), f64::from_bits(b.bits()));
+                let r = match op { 0 => x + y, 1 => x - y, 2 => x * y, _ => x / y };
+                S::from_bits64(r.to_bits())
+            }
+        }
+        for it in 0..iters {
+            let pickv = |r: &mut Rng| -> S { match it % 3 { 0 => S::random_bits(r), 1 => *r.pick(S::lattice()), _ => vcommon::fl::hostile::<S>(r) } };
+            let a: [S; 4] = core::array::from_fn(|_| pickv(&mut rng));
+            let b: [S; 4] = core::array::from_fn(|_| pickv(&mut rng));
+            let s = pickv(&mut rng);
+            c.event(vcommon::fl::class_key(&[a[0], b[0], s]), true);
+            let res: [(&'static str, u8, [S; 4], [S; 4]); 4] = [
+                ("add", 0, (api.add)(a, b), b),
+                ("sub", 1, (api.sub)(a, b), b),
+                ("mul_scalar", 2, (api.mul_s)(a, s), [s; 4]),
+                ("div_scalar", 3, (api.div_s)(a, s), [s; 4]),
+            ];
+            for (nm, op, got, rhs) in res {
+                for k in 0..4 {
+                    let want = prim::<S>(op, a[k], rhs[k]);
+                    if !vcommon::fl::ieq(got[k], want) {
+                        if c.wants_witness("lane_mismatch", &[nm]) {
+                            c.violation("lane_mismatch", &[nm], format!("a={} rhs={}", show(&a), show(&rhs)), show(&got), format!("component {}: {}", k, want.hex()), "component-wise like the 4-vector operation: one IEEE operation per component".into());
+                        } else {
+                            c.st.violations += 1;
+                        }
+                        break;
+                    }
+                }
+            }
+        }
+        c.sample(format!("{}: q+p, q-p, q*s, q/s on random bit patterns, the special-value lattice and hostile values vs the primitive per component", ty));
+        mon.end(c);
+    }
+
     if let Some(mut c) = mon.begin(ty, "component-wise ops and product (analytic bound)") {
         let mut rng = Rng::new(mon.op_seed(ty, "hp"));
         for it in 0..iters {
@@ -251,8 +295,8 @@ fn canaries(mon: &mut Monitor) {
 pub fn run(mon: &mut Monitor) {
     canaries(mon);
     suite(mon, &quat_api!(Quat, f32, Vec3, [
-        "mul_vec3a" => |a: [f32; 4], v: [f32; 3]| Quat::from_array(a).mul_vec3a(Vec3A::from_array(v)).to_array(),
-        "q*Vec3A" => |a: [f32; 4], v: [f32; 3]| (Quat::from_array(a) * Vec3A::from_array(v)).to_array()
+        "mul_vec3a" => |a: [f32; 4], v: [f32; 3]| Quat::from_array(a).mul_vec3a(<Vec3A as crate::gen::FromLanes<f32, 3>>::mk(v)).to_array(),
+        "q*Vec3A" => |a: [f32; 4], v: [f32; 3]| (Quat::from_array(a) * <Vec3A as crate::gen::FromLanes<f32, 3>>::mk(v)).to_array()
     ]));
     suite(mon, &quat_api!(DQuat, f64, DVec3, []));
 }
